@@ -14,7 +14,7 @@ NSHARDS = {"quick": 32, "thorough": 64}
 BUDGET_S = {"quick": 200, "thorough": 1800}
 EXTRA_BUILDS = {"thorough": ["rel"]}  # used by the generic release-build stage in core
 MIN_HITS = {
-    'quick': {"der_rt": 1312, "last_byte_is_flag": 554, "last_byte_not_flag": 758, "der_plus_flag": 15680, "compact_rt": 8960, "recover": 192, "der_bad": 5664, "compact_bad": 912},
+    'quick': {"der_rt": 1312, "last_byte_is_flag": 555, "last_byte_not_flag": 756, "der_plus_flag": 15680, "compact_rt": 8960, "recover": 192, "der_bad": 5664, "compact_bad": 912},
     'thorough': {"der_rt": 103680, "last_byte_is_flag": 40433, "der_plus_flag": 1128960, "compact_rt": 645120, "recover": 23040, "der_bad": 168960, "compact_bad": 145920},
 }
 FLAGS = [0x40, 0x01, 0x02, 0x03, 0x80, 0x41, 0x42, 0x43, 0xC1, 0xC2, 0xC3, 0x81, 0x82, 0x83]
@@ -104,7 +104,7 @@ def judge(ctx, case):
         for hdr in range(27, 35):
             ctx.hit("compact_rt")
             c = bytes([hdr]) + bytes.fromhex(case["r"]) + bytes.fromhex(case["s"])
-            p = ctx.call({"op": "sig_from_compact", "hex": c.hex()})
+            p = ctx.call({"op": "sig_from_compact", "hex": c.hex(), "via_impl": bool(c[-1] & 1)})
             ctx.ev()
             po = p.get("ok", {})
             if (po.get("r"), po.get("s")) != (case["r"], case["s"]):
@@ -151,6 +151,22 @@ def judge(ctx, case):
         ctx.ev()
         if rd.get("ok", {}).get("pub") != want:
             ctx.viol("recover_public_key_from_digest does not return the signer's public key", {"got": str(rd.get("ok", rd.get("err", rd.get("panic"))))[:200]})
+        # the inner public functions behind the two wrappers
+        for rq, what in (({"op": "recover", "compact": comp, "msg": case["msg"], "hash": case["hash"], "inner": True}, "get_public_key"), ({"op": "recover", "compact": comp, "digest": d.hex(), "inner": True}, "get_public_key_from_digest")):
+            ri = ctx.call(rq)
+            ctx.ev()
+            if ri.get("ok", {}).get("pub") != want:
+                ctx.viol("Signature::%s does not return the signer's public key" % what, {"got": str(ri.get("ok", ri.get("err", ri.get("panic"))))[:200]})
+        # digests of another length that merely start with / contain the signed digest are different messages
+        for alt, what in ((d + b"\x00", "digest followed by one byte"), (d + d, "digest repeated"), (d + gen.rbytes(ctx.rnd, 7), "digest followed by extra bytes"), (d[:31], "digest cut to 31 bytes"), (b"\x00" + d, "digest preceded by a zero byte"), (d[1:], "digest without its first byte")):
+            for inner in (False, True):
+                ra = ctx.call({"op": "recover", "compact": comp, "digest": alt.hex(), "inner": inner})
+                ctx.ev()
+                ctx.hit("recover_other_length_digest")
+                if ra.get("ok", {}).get("pub") == want:
+                    ctx.viol("recovery from a digest of another length returns the signer's key (%s%s)" % (what, ", get_public_key_from_digest" if inner else ""), {"digest": alt.hex()})
+                elif "panic" in ra:
+                    ctx.note("recovery from a digest of another length panics (C09)")
         r2 = ctx.call({"op": "recover", "compact": comp, "msg": (m + b"x").hex(), "hash": case["hash"]})
         ctx.ev()
         if r2.get("ok", {}).get("pub") == want:
@@ -234,7 +250,7 @@ def judge(ctx, case):
         for b, name in bad:
             for build in (["chk", "rel"] if ctx.tier == "thorough" else ["chk"]):
                 ctx.hit("compact_bad")
-                p = ctx.call({"op": "sig_from_compact", "hex": b.hex()}, build=build)
+                p = ctx.call({"op": "sig_from_compact", "hex": b.hex(), "via_impl": bool(len(b) & 1) if b else False}, build=build)
                 ctx.ev()
                 if "ok" in p:
                     ctx.viol("invalid compact signature accepted (%s, %s build)" % (name, "overflow-checked" if build == "chk" else "release"), {"hex": b.hex()[:20]})
